@@ -29,7 +29,7 @@ MANIFEST = {
                  "correspondence in coqc",
     "ref": "6 C06",
 }
-RULE = ("matcher expressions over a modelled value universe (ints, bools, floats, str, bytes, None, lists, dicts, "
+RULE = ("matcher expressions over a modelled value universe (ints, bools, floats, str, bytes, None, frozensets, lists, dicts, "
         "attribute objects, exc_info tuples, callables, paths in a scratch directory; falsy values 0 False 0.0 '' b'' "
         "None [] {} and values equal across types 1 True 1.0 occur as matchees, list elements, attribute values, dict "
         "values and dict keys): typed exhaustive enumeration to depth 2 over "
@@ -168,6 +168,8 @@ def mk_val(v, ctx):
         return bytes(v[1])
     if k == "n":
         return None
+    if k == "z":                    # frozenset of ints
+        return frozenset(v[1])
     if k == "l":
         return [mk_val(x, ctx) for x in v[1]]
     if k == "d":
@@ -205,7 +207,7 @@ NOTES = ["note", "café ☃", "a'b\"c\\", "line1\nline2"]
 def mk_ty(t):
     if isinstance(t, list):
         return EXC[t[1]]
-    return {"int": int, "bool": bool, "float": float, "str": str, "bytes": bytes, "none": type(None), "list": list, "dict": dict, "rec": Obj,
+    return {"int": int, "bool": bool, "float": float, "set": frozenset, "str": str, "bytes": bytes, "none": type(None), "list": list, "dict": dict, "rec": Obj,
             "object": object, "tuple": tuple, "func": types.FunctionType}[t]
 
 
@@ -367,10 +369,23 @@ def drive(case):
     try:
         runs, verdicts = [], []
         stable = True
-        for perms in runs_for(case):
+        # MatchesSetwise iterates a set of matcher objects, i.e. in an order that follows their addresses.  Besides
+        # every creation permutation, small cases are rebuilt (earlier constructions kept alive, so that the new
+        # objects land elsewhere) until every iteration order has been observed or 16 extra attempts were made.
+        nodes = setwise_nodes(case["m"])
+        want = 1
+        for _, n in nodes:
+            for f in range(2, n + 1):
+                want *= f
+        queue = runs_for(case)
+        rng = random.Random(zlib.crc32(json.dumps(case, sort_keys=True).encode()) ^ 0x5bd1e995) if nodes else None
+        seen_orders, keep, extra = set(), [], 0
+        while queue:
+            perms = queue.pop(0)
             ctx = Ctx(perms, case.get("leafdefs", ()))
             m = mk_matcher(case["m"], ctx)
             v = mk_val(case["v"], ctx)
+            keep.append((m, v))
             before = (snap(m), snap(v))
             res = []
             for _ in range(2):
@@ -384,8 +399,15 @@ def drive(case):
                         raise
             after = (snap(m), snap(v))
             stable = stable and res[0] == res[1] and before == after
-            verdicts.append(res[0])
-            runs.append(sorted([sid, ranks] for sid, ranks in ctx.orders.items()))
+            order = sorted([sid, ranks] for sid, ranks in ctx.orders.items())
+            key = json.dumps(order)
+            if extra == 0 or key not in seen_orders:
+                verdicts.append(res[0])
+                runs.append(order)
+            seen_orders.add(key)
+            if not queue and 1 < want <= 6 and len(seen_orders) < want and extra < 16:
+                extra += 1
+                queue.append({sid: rng.sample(range(n), n) for sid, n in nodes})
         return {"runs": runs, "verdicts": verdicts, "stable": stable}
     finally:
         os.chdir(cwd)
@@ -450,6 +472,8 @@ def t_val(v):
         return "(VBytes %s)" % t_str(v[1])
     if k == "n":
         return "VNone"
+    if k == "z":
+        return "(VSet %s)" % q.lst([q.Z(x) for x in sorted(set(v[1]))])
     if k == "l":
         return "(VList %s)" % q.lst([t_val(x) for x in v[1]])
     if k == "d":
@@ -468,7 +492,7 @@ def t_val(v):
 def t_ty(t):
     if isinstance(t, list):
         return "(TExc %s)" % q.nat(t[1])
-    return {"int": "TInt", "bool": "TBool", "float": "TFloat", "str": "TStr", "bytes": "TBytes", "none": "TNone", "list": "TList", "dict": "TDict",
+    return {"int": "TInt", "bool": "TBool", "float": "TFloat", "set": "TSet", "str": "TStr", "bytes": "TBytes", "none": "TNone", "list": "TList", "dict": "TDict",
             "rec": "TRec", "object": "TObject", "tuple": "TTuple", "func": "TFunc"}[t]
 
 
